@@ -50,7 +50,75 @@ BACKENDS = [({'type': 'file', 'layout': 'tc'}, 3), ({'type': 'file', 'layout': '
 LOCKDIR = '/simfs/locks'
 
 
+IDENTITY_SCRIPT = r'''
+import json, sys
+spec = json.loads(sys.argv[1])
+sys.path.insert(0, spec['verif'])
+from checks import common as C
+from mapproxy.cache.base import TileLocker
+from mapproxy.cache.tile import Tile
+cache = C.make_cache(spec['backend'], spec['dir'] + '/cache')
+locker = TileLocker(spec['dir'] + '/locks', 60, cache.lock_cache_id)
+out = {'lock_cache_id': cache.lock_cache_id,
+       'tile_locks': [locker.lock_filename(Tile(tuple(c))) for c in spec['coords']]}
+if spec['backend']['type'] == 'compact':
+    out['bundle_locks'] = [cache._get_bundle(tuple(c)).lock_filename for c in spec['coords']]
+print(json.dumps(out))
+'''
+
+
+def _run_identity(sc, tape):
+    """processes of a multi-process deployment are separately started interpreters: the names of the lock files they
+    meet on must not depend on anything that differs between interpreters (hash randomisation)"""
+    import json
+    import subprocess
+    import shutil
+    import tempfile
+    import mapproxy
+    from simkit.world import _REAL
+    d = tempfile.mkdtemp(prefix='verif-c08id-%d-' % _REAL['os.getpid'](), dir='/dev/shm')
+    name = C.backend_name(sc['backend'])
+    spec = {'verif': os.path.dirname(os.path.dirname(os.path.abspath(__file__))), 'backend': sc['backend'], 'dir': d,
+            'coords': sc['coords']}
+    outs = []
+    try:
+        procs = []
+        for hs in sc['hashseeds']:
+            env = dict(os.environ, PYTHONHASHSEED=str(hs),
+                       PYTHONPATH=os.path.dirname(os.path.dirname(os.path.abspath(mapproxy.__file__))))
+            procs.append(subprocess.Popen([sys.executable, '-B', '-c', IDENTITY_SCRIPT, json.dumps(spec)], env=env,
+                                          stdout=subprocess.PIPE, stderr=subprocess.PIPE))
+        for pr in procs:
+            o, e = pr.communicate(timeout=120)
+            if pr.returncode != 0:
+                raise RuntimeError('identity helper failed: %s' % e.decode('utf-8', 'replace')[-800:])
+            outs.append(json.loads(o.decode().strip().splitlines()[-1]))
+    finally:
+        shutil.rmtree(d, ignore_errors=True)
+    v = None
+    for key in sorted(outs[0]):
+        if outs[0][key] != outs[1][key]:
+            a, b = outs[0][key], outs[1][key]
+            if isinstance(a, list):
+                i = [k for k in range(len(a)) if a[k] != b[k]][0]
+                a, b = a[i], b[i]
+                what = '%s of tile %s' % (key, tuple(sc['coords'][i]))
+            else:
+                what = key
+            v = {'sig': 'C08:lock-identity-differs-between-processes:%s' % name,
+                 'msg': '%s is %r in an interpreter started with PYTHONHASHSEED=%s and %r with PYTHONHASHSEED=%s: two server '
+                        'processes would lock different files for the same tile and both fetch it' % (
+                            what, os.path.basename(a), sc['hashseeds'][0], os.path.basename(b), sc['hashseeds'][1])}
+            break
+    return {'violation': v, 'digest': C.digest_of('identity', outs[0].get('lock_cache_id') is not None, len(sc['coords'])),
+            'nontrivial': True, 'steps': 2, 'sim_time': 0.0, 'faults': {}, 'probes': {'mode_identity': 1},
+            'sample': {'backend': name, 'mode': 'identity', 'hashseeds': sc['hashseeds']}}
+
+
 def gen(t, tier):
+    if t.chance(0.004):
+        return {'kind': 'identity', 'backend': copy.deepcopy(t.weighted(BACKENDS)), 'hashseeds': [t.randint(1, 1000), t.randint(1001, 2000)],
+                'coords': [[t.choice(1 << z), t.choice(1 << z), z] for z in (0, 2, 3, 9, 12)]}
     z = t.pick([2, 3, 3, 4])
     n = 1 << z
     meta = t.pick([[1, 1], [2, 2], [2, 2], [3, 3], [2, 1]])
@@ -122,6 +190,8 @@ def gen(t, tier):
 
 
 def shrink(sc):
+    if sc.get('kind') == 'identity':
+        return
     for pi, p in enumerate(sc['procs']):
         for ci in range(len(p['clients'])):
             if sum(len(q['clients']) for q in sc['procs']) <= 1:
@@ -169,6 +239,8 @@ def _all_coords(maxz):
 
 
 def run(sc, tape):
+    if sc.get('kind') == 'identity':
+        return _run_identity(sc, tape)
     if sc.get('stack') == 'wsgi':
         return _run_wsgi(sc, tape)
     return _run_tm(sc, tape)
